@@ -37,3 +37,7 @@ EXTRA += [
                                          "C10_update", "C10_tree_wf", "C10_stack", "C10_concat", "C10_history", "C10_history_restrict", "C10_history_sum",
                                          "C10_history_modelcount"]),
 ]
+EXTRA += [
+    ("C03", "DsProofs.Properties.C03Rows", ["C03_rows", "C03_rows_exprs", "C03_rows_uncaught", "C03_rowsTrue_spec"]),
+    ("C04", "DsProofs.Properties.C04Rows", ["C04_rows_estimator", "C04_rows_uniform", "C04_rows_eq_brute", "C04_rows_uncaught"]),
+]
